@@ -20,7 +20,14 @@ HEADER = ("From Shk Require Import Base.Prelude Model.Dirs Model.Script Corr.C13
 
 def queries(k):
     cs = "cast_cases_%d" % k
-    return [
+    extra = []
+    if k == 0:
+        # the real plays ride in the first shard
+        extra = [
+            ("MplayIdx", "map (fun c => exec_model_bad_idx c) play_casts"),
+            ("OplayIdx", "map (fun c => exec_oracle_bad_idx c) play_casts"),
+        ]
+    return extra + [
         ("Mtext", "bad_indices cast_model_bad %s" % cs),
         ("Mexec", "bad_indices exec_model_bad %s" % cs),
         ("Oexec", "bad_indices exec_oracle_bad %s" % cs),
@@ -49,6 +56,8 @@ def classify(case, e):
     wd = case["RunDir"] + "/artifacts/" + e["Actor"]
     env = dict((k, v) for k, v in (e["Env"] or []))
     log = wd + "/" + e["Script"] + ".log"
+    if e["Ran"] and e["Spotlight"] and not e.get("StreamsOK", True):
+        return "spotlight-stream-not-seen-by-signal-filters", "the spotlight's stdout and stderr must both be the play's pipe and a line of each must reach the signal filters: %s" % e.get("Note")
     if not e["Ran"]:
         return "script-or-command-failed", "the script did not run its command to the end (%s)" % e["ExitErr"]
     if e["Cwd"] != wd:
@@ -89,7 +98,8 @@ def run(tier, seed):
         "work directories with a single quote, and for actions/cleanups with any shell-special character (the `echo output redirected to` line is unquoted), are outside the claim; so are action names that are not plain shell words",
         "`with` strings: NAME=word lists separated by ' ' or '; ' are covered by the theorems; values with $NAME references only by the executed cases; quoting inside values is outside",
         "a `with` clause that assigns TMPDIR, HOME or i itself overrides the prefix (statements are conditional)",
-        "the runner (makeShCmd / exec of the script file by the play) is not part of this check: scripts are executed by the harness the way exec.Command(script) does",
+        "most executions are by the harness the way exec.Command(script) does; the play's own runner (makeShCmd, runActorCommandWithConsumer) is exercised by a few real plays per run only (6 quick, 40 thorough), observed not modelled",
+        "quoted with-values ('...' and \"...\" with $NAME inside) are interpreted by the mini-shell and compared with bash on executed cases; the theorems cover unquoted words only",
         "Linux /proc is used to observe where descriptors 1 and 2 point and their O_APPEND flag",
     ]
     ok, detail = vlib.proof_stage(res, "C13", THEOREMS)
@@ -98,19 +108,20 @@ def run(tier, seed):
                       {"kind": "proof-obligation", "detail": detail}, no_input=True)
         return res.finish()
     try:
-        bins = vlib.build_bins(["c13"])
+        bins = vlib.build_bins(["c13", "shakespeare"])
     except vlib.BuildError as e:
         res.violation(None, "harness does not build against the current tree",
                       {"kind": "correspondence-build", "what": e.what, "output": e.output[-4000:]}, no_input=True)
         return res.finish()
     out = tempfile.mkdtemp(prefix="shk-c13-")
     try:
-        rc, o = vlib.run([bins["c13"], "-seed", str(seed), "-tier", tier, "-out", out], timeout=3000)
+        rc, o = vlib.run([bins["c13"], "-seed", str(seed), "-tier", tier, "-out", out, "-bin", bins["shakespeare"]], timeout=3000)
         if rc != 0:
             res.violation(None, "harness crashed", {"kind": "harness-crash", "output": o[-4000:]}, no_input=True)
             return res.finish()
         cases_v = open(os.path.join(out, "cases.v")).read()
         cases = json.load(open(os.path.join(out, "cases.json")))
+        plays = json.load(open(os.path.join(out, "plays.json"))) or []
         summary = json.load(open(os.path.join(out, "summary.json")))
     finally:
         shutil.rmtree(out, ignore_errors=True)
@@ -126,7 +137,15 @@ def run(tier, seed):
     bad = {"Mtext": [], "Mexec": [], "Oexec": []}
     bad_execs = {"Oexec": {}, "Mexec": {}}
     failed_eval = None
+    play_bad = {"O": [], "M": []}
     for k, (rc, cout, q, path) in enumerate(results):
+        if k == 0:
+            po, pm = parse_nested(q.get("OplayIdx")), parse_nested(q.get("MplayIdx"))
+            if po is None or pm is None or len(po) != len(plays) or len(pm) != len(plays):
+                failed_eval = cout[-3000:]
+                break
+            play_bad["O"] = [(pi, ei) for pi, idxs in enumerate(po) for ei in idxs]
+            play_bad["M"] = [(pi, ei) for pi, idxs in enumerate(pm) for ei in idxs]
         vals = {n: vlib.parse_nat_list(q.get(n)) for n in ("Mtext", "Mexec", "Oexec")}
         oi, mi = parse_nested(q.get("OexecIdx")), parse_nested(q.get("MexecIdx"))
         if rc != 0 or any(v is None for v in vals.values()) or oi is None or mi is None:
@@ -139,9 +158,9 @@ def run(tier, seed):
         for ci, idxs in zip(vals["Mexec"], mi):
             bad_execs["Mexec"][starts[k] + ci] = idxs
     res.coverage.update({
-        "evaluations": summary["casts"] + summary["executions"],
+        "evaluations": summary["casts"] + summary["executions"] + summary["real_play_commands"],
         "distinct_nontrivial": summary["distinct_nontrivial"],
-        "rule": "a case is a generated cast (1-3 roles, `extends`, 1-4 cast lines, single and `name* play N` with N in 1..5 and sometimes 9..12, plural role names, `with` clauses of 1-3 assignments incl. ones overriding i/HOME/TMPDIR and ones with $references; 1 in 15 deliberately invalid) written by the real prepareDirs under an absolute / relative / nested / '.' output directory (names with blanks and + , = @ % : and non-ASCII letters), plus up to 7 executions of its scripts by bash from a foreign directory and environment (stale values of i, HOME, TMPDIR and of with-variables planted), up to 3 of them through another actor's script. distinct_nontrivial counts distinct executions (configuration, run directory, script, path of invocation, caller environment) that are nested, or of an actor with a with-clause, or of a member of a multi-actor line.",
+        "rule": "a case is a generated cast (1-3 roles, `extends`, 1-4 cast lines, single and `name* play N` with N in 1..5 and sometimes 9..12, plural role names, `with` clauses of 1-3 assignments incl. ones overriding i/HOME/TMPDIR and ones with $references; 1 in 15 deliberately invalid) written by the real prepareDirs under an absolute / relative / nested / '.' output directory (names with blanks and + , = @ % : and non-ASCII letters), plus up to 7 executions of its scripts by bash from a foreign directory and environment (stale values of i, HOME, TMPDIR and of with-variables planted), up to 3 of them through another actor's script. A quarter of the with-values are quoted (double or single quotes) with runs of blanks and tabs inside (the command must see them byte for byte), some with a $reference between double quotes. On top, 6 (thorough 40) configurations are PLAYED by the real CLI (single + multi-actor line, with clauses, every action / spotlight / cleanup command is the probe): the state each command sees under the real runner is compared with the same model and oracle, and a spotlight must have the play's pipe on both descriptors with one stdout line and one stderr line reaching the signal filters (csv rows). distinct_nontrivial counts distinct executions (configuration, run directory, script, path of invocation, caller environment) that are nested, or of an actor with a with-clause, or of a member of a multi-actor line.",
         "samples": summary["samples"],
         "distribution": {k: summary[k] for k in summary if k not in ("samples", "shard_sizes", "distinct_nontrivial")},
         "traces_validated_against_impl": summary["executions"],
@@ -175,6 +194,24 @@ def run(tier, seed):
                  "run_dir": case["RunDir"], "execution": e,
                  "script_text": next((a["Scripts"].get(e["Script"]) for a in case["Actors"] if a["Name"] == e["Actor"]), None),
                  "replay": replay_text(case, e)})
+    for pi, ei in play_bad["O"]:
+        case = plays[pi]
+        e = case["Execs"][ei]
+        sig, what = classify(case, e)
+        if sig in seen:
+            continue
+        seen.add(sig)
+        res.violation(sig, "in a real play, %s of actor %s (%s): %s" % (
+            "spotlight" if e["Spotlight"] else "command", e["Actor"], e["Script"], what),
+            {"kind": "failing-input", "config": case["Cfg"], "run_dir": case["RunDir"], "execution": e,
+             "replay": "write the configuration to play.cfg (its commands are `<harness> -probe <tag>`: any program that dumps pwd, env and readlink /proc/self/fd/{1,2} will do); "
+                       "env -i PATH=/usr/bin:/bin SHELL=/bin/bash <the listed caller environment> shakespeare -q -k --disable-plots -o <dir> play.cfg; "
+                       "for a spotlight also look at csv/aud.<actor>.so.csv (stdout line) and csv/aud.<actor>.se.csv (stderr line)"})
+    if not res.violations and not res.known and play_bad["M"]:
+        pi, ei = play_bad["M"][0]
+        res.violation(None, "in a real play the mini-shell's prediction differs from what the command saw (property oracle passes): correspondence MplayIdx broken",
+                      {"kind": "correspondence", "query": "MplayIdx", "config": plays[pi]["Cfg"], "run_dir": plays[pi]["RunDir"],
+                       "execution": plays[pi]["Execs"][ei]}, no_input=True)
     if not res.violations and not res.known:
         if bad["Mexec"]:
             ci = bad["Mexec"][0]
